@@ -113,6 +113,8 @@ pub struct Case {
 }
 
 pub const NSLOTS: usize = 4;
+/// `foreach <n> pull`: stored in the place of the panic position
+pub const CLOSURE_PULLS: u64 = u64::MAX - 1;
 
 fn num<T: std::str::FromStr>(s: &str, what: &str, ln: usize) -> Result<T, String> {
     if s.is_empty() || !s.bytes().all(|b| b.is_ascii_digit()) {
@@ -321,6 +323,8 @@ fn parse_op(text: &str, ln: usize) -> Result<Op, String> {
             }
             let n = num(toks[1], "n", ln)?;
             let p = match toks.get(2) {
+                // `pull`: the function itself pulls one more element from the same iterator after each call
+                Some(t) if *t == "pull" => Some(CLOSURE_PULLS),
                 Some(t) => Some(parse_panic_opt(t, ln)?),
                 None => None,
             };
